@@ -98,10 +98,20 @@ def run_histories(check, tier, clauses):
         for h, events in zip(ch, res):
             traces.append({"levels": levels, "events": events, "reference": ref, "proc": "seed0", "hist": h})
     # single-object histories in fresh processes under other hash seeds
-    simple = [h for h in hists if all(e["obj"] == 1 for e in h)][: (30 if tier == "quick" else 300)]
-    for hs in ((1, "random") if tier == "quick" else (1, 2, 3, "random")):
-        for h, events in zip(simple, worker(simple, hs)):
+    # every input must be covered: up to N single-object histories per input
+    per_input = {}
+    for h in hists:
+        if all(e["obj"] in (0, 1) for e in h):
+            per_input.setdefault(h[0]["inp"], []).append(h)
+    cap = 12 if tier == "quick" else 80
+    simple = [h for i in sorted(per_input) for h in per_input[i][:cap]]
+    seeds = (1, 2, 3, 4, 5, 6, 7, 8, "random") if tier == "quick" else tuple(range(1, 25)) + ("random",)
+    with ThreadPoolExecutor(max_workers=common.NCPU) as ex:
+        outs = list(ex.map(lambda hs: worker(simple, hs), seeds))
+    for hs, out in zip(seeds, outs):
+        for h, events in zip(simple, out):
             traces.append({"levels": levels, "events": events, "reference": ref, "proc": "seed%s" % hs, "hist": h})
+    check.extra["hash_seeds"] = [str(x) for x in seeds]
     slim = [{k: t[k] for k in ("levels", "events", "reference")} for t in traces]
     verdicts, stats = tlc.validate("ResolverAPITrace", slim)
     check.add_tv(stats)
